@@ -618,8 +618,15 @@ func (fc *funcContext) LeaveBlock() int {
 }
 
 func (fc *funcContext) EndScope() {
+	// DbgLocals is in declaration order, vr.Index is a register number (registers are reused by later
+	// blocks): the entry of a variable of this block is the last one with its name that is still open
 	for _, vr := range fc.Block.LocalVars.List() {
-		fc.Proto.DbgLocals[vr.Index].EndPc = fc.Code.LastPC()
+		for i := len(fc.Proto.DbgLocals) - 1; i >= 0; i-- {
+			if dl := fc.Proto.DbgLocals[i]; dl.Name == vr.Name && dl.EndPc == 0 {
+				dl.EndPc = fc.Code.LastPC() + 1 // first instruction where the variable is dead
+				break
+			}
+		}
 	}
 }
 
